@@ -30,6 +30,43 @@ def hashable(k):
     return k
 
 
+def _is_sym_slot(hk):
+    return isinstance(hk, tuple) and len(hk) == 2 and hk[0] == "sym!"
+
+
+def dict_new_slot(key):
+    """hash key for a NEW entry: the python value when concrete, a name for the term when symbolic"""
+    try:
+        return hashable(key)
+    except Undecided:
+        return ("sym!", "%s:%s" % (key.t.sexpr(), key.ty))
+
+
+def dict_slot(ctx, s, key):
+    """slot of a concrete-shape dict that holds `key` on this path, or None.  Entries may have symbolic keys: equality with such
+    an entry (or of a symbolic key with any entry) is decided by a case split, so afterwards the path condition pins it down."""
+    try:
+        hk = hashable(key)
+        sym = False
+    except Undecided:
+        hk, sym = None, True
+    if hk is not None and hk in s["v"]:
+        return hk
+    if sym:
+        nm = dict_new_slot(key)
+        if nm in s["v"]:
+            return nm
+    for ek, (kk, _) in list(s["v"].items()):
+        if sym or _is_sym_slot(ek):
+            try:
+                eq = values_equal(ctx, key, kk)
+            except Undecided:
+                continue
+            if eq is True or (eq is not False and ctx.branch(eq, "dict-key")):
+                return ek
+    return None
+
+
 def text_len(v):
     if isinstance(v, SV):
         return mk(z3.Length(v.t), "int")
@@ -127,10 +164,12 @@ def contains(ctx, container, item):
         if container.kind in ("list", "deque"):
             return t_or(*[values_equal(ctx, item, x) for x in s["v"]])
         if container.kind == "dict":
-            try:
-                return hashable(item) in s["v"]
-            except Undecided:
-                return t_or(*[values_equal(ctx, item, k) for k, _ in s["v"].values()])
+            if not any(_is_sym_slot(ek) for ek in s["v"]):
+                try:
+                    return hashable(item) in s["v"]
+                except Undecided:
+                    pass
+            return dict_slot(ctx, s, item) is not None
         if container.kind == "sdict":
             return z3.Select(s["dom"], _key_term(s, item))
         if container.kind == "buf":
@@ -385,15 +424,8 @@ def getitem(ctx, obj, idx):
             except IndexError:
                 raise py_exc(IndexError, "list index out of range")
         if obj.kind == "dict":
-            try:
-                hk = hashable(idx)
-            except Undecided:
-                # symbolic key against concrete keys: case split
-                for k, (kk, vv) in s["v"].items():
-                    if ctx.branch(values_equal(ctx, idx, kk), "dict-key"):
-                        return vv
-                raise PyExc(ExcVal(KeyError, (idx,)))
-            if hk in s["v"]:
+            hk = dict_slot(ctx, s, idx)     # symbolic keys (on either side): case split on equality
+            if hk is not None:
                 return s["v"][hk][1]
             raise PyExc(ExcVal(KeyError, (idx,)))
         if obj.kind == "sdict":
@@ -420,8 +452,12 @@ def setitem(ctx, obj, idx, v):
     if isinstance(obj, Ref):
         s = ctx.st(obj)
         if obj.kind == "dict":
+            hk = dict_slot(ctx, s, idx)
             s["v"] = dict(s["v"])
-            s["v"][hashable(idx)] = (idx, v)
+            if hk is not None:
+                s["v"][hk] = (s["v"][hk][0], v)      # existing key object is kept (python keeps the first key)
+            else:
+                s["v"][dict_new_slot(idx)] = (idx, v)
             return
         if obj.kind == "sdict":
             _sdict_type(ctx, s, idx, v)
@@ -468,8 +504,8 @@ def delitem(ctx, obj, idx):
             s["v"] = E.binop(ctx, ast.Add(), a, b)
             return
         if obj.kind == "dict":
-            hk = hashable(idx)
-            if hk not in s["v"]:
+            hk = dict_slot(ctx, s, idx)
+            if hk is None:
                 raise PyExc(ExcVal(KeyError, (idx,)))
             s["v"] = dict(s["v"])
             del s["v"][hk]
